@@ -25,8 +25,8 @@ from . import gens
 from .hist_ragged import check_ifd, check_model
 from .monitors import bits_equal, check_array_disk, check_array_readme, compare_handle, describe, fdmap
 
-XOPS = ['x:trunc', 'x:app', 'x:set', 'x:recreate_samesize', 'x:recreate_other', 'x:md']
-HOPS = ['h:read', 'h:set', 'h:app', 'h:iterapp', 'h:trunc']
+XOPS = ['x:trunc', 'x:app', 'x:set', 'x:recreate_samesize', 'x:recreate_other', 'x:md', 'x:md_clear']
+HOPS = ['h:read', 'h:set', 'h:app', 'h:iterapp', 'h:trunc', 'h:md']
 SHAPES = [(0,), (1,), (3,), (6,), (10,), (0, 2), (2, 3), (3, 2), (4, 1), (2, 2, 2), (3, 1, 2)]
 # same item size, another interpretation of the same bytes
 SAMESIZE = {1: ['int8', 'uint8'], 2: ['int16', 'uint16', 'float16'], 4: ['int32', 'uint32', 'float32'],
@@ -58,7 +58,8 @@ def ragged_cases(rng, n, seed):
     for k in range(n):
         yield {'kind': 'stale', 'numtype': rng.choice(gens.T13), 'bo': rng.choice(gens.BO),
                'atom': list(rng.choice([(), (), (2,), (1, 2)])), 'nsub': rng.choice([0, 1, 2, 3, 6, 7]),
-               'steps': [s for s in steps_for(rng) if s not in ('x:set', 'h:set', 'x:recreate_samesize')] or ['x:app', 'h:app'],
+               'steps': [s for s in steps_for(rng) if s not in ('x:set', 'h:set', 'x:recreate_samesize', 'x:md_clear', 'h:md')]
+               or ['x:app', 'h:app'],
                'vseed': f'{seed}:sr{k}'}
 
 
@@ -105,6 +106,12 @@ def run_array(env, res, case, want_readme=False, census=False):
                     model[i] = row
                 elif step == 'x:md':
                     D.Array(path, accessmode='r+').metadata['k'] = rng.randint(0, 9)
+                elif step == 'x:md_clear':
+                    md2 = D.Array(path, accessmode='r+').metadata
+                    for key in list(md2.keys()):
+                        md2.pop(key)
+                elif step == 'h:md':
+                    h.metadata['k'] = rng.randint(0, 3)
                 elif step == 'x:recreate_samesize':
                     cands = [t for t in SAMESIZE[model.dtype.itemsize] if np.dtype(t).kind != model.dtype.kind
                              or np.dtype(t).itemsize != model.dtype.itemsize] or SAMESIZE[model.dtype.itemsize]
@@ -171,7 +178,7 @@ def run_array(env, res, case, want_readme=False, census=False):
                 if leak:
                     res.fail(f'{tag}:fd-or-map-left-open', f'after {step}: {leak}', step=step)
                     return
-            if want_readme and step != 'x:md':
+            if want_readme:
                 check_array_readme(res, D, path, mechprefix=f'{tag}:readme')
                 if res.fails:
                     return
